@@ -117,6 +117,14 @@ impl IfFilter {
                     *if_expression.mutate_result() = Self::result_placeholder();
                     None
                 } else if let Some(branch) = if_expression.remove_branch(0) {
+                    // the promoted branch keeps its own `then` token
+                    if let (Some(tokens), Some(branch_tokens)) =
+                        (if_expression.get_tokens(), branch.get_tokens())
+                    {
+                        let mut tokens = tokens.clone();
+                        tokens.then = branch_tokens.then.clone();
+                        if_expression.set_tokens(tokens);
+                    }
                     let (new_condition, new_result) = branch.into_expressions();
                     *if_expression.mutate_condition() = new_condition;
                     *if_expression.mutate_result() = new_result;
